@@ -35,8 +35,14 @@ def prob_list(draw, family, k):
     strat = probs(None if family == 'mixed' else family)
     if family == 'dyadic' and k <= 4 and draw(st.integers(0, 2)) == 0:
         strat = st.sampled_from([0.5, 0.25, 0.125, 0.0625])     # tiny pool: forces many exact ties of products
-    xs = draw(st.lists(strat, min_size=k, max_size=k, unique=True))
-    return sorted(xs, reverse=True)
+    xs = sorted(draw(st.lists(strat, min_size=k, max_size=k, unique=True)), reverse=True)
+    if k >= 2 and draw(st.integers(0, 7)) == 0:
+        # neighbouring entries that are NOT tied but differ by one part in 1e12: two groups, two probabilities
+        i = draw(st.integers(0, k - 2))
+        near = xs[i] * (1 - 2.0 ** -40)
+        if xs[i + 1] < near < xs[i]:
+            xs[i + 1] = near
+    return xs
 
 
 # ------------------------------------------------------------------ values
